@@ -212,6 +212,32 @@ def impure_fn_cases(tier, rng, kinds, tools_subset=None, cons_for=None):
                             yield case
 
 
+def shared_source_cases(tier, rng, kinds, cons_for=None):
+    """the SAME one-shot iterator object handed to a tool at several positions (`zip_longest(*[it] * n)`, the documented
+    grouper recipe; `zip(it, it)` pairs; `chain(it, it)`; `compress(it, it)`), also next to a different iterator"""
+    grid = tool_grid(tier)
+    layouts = [[0, 0], [0, 0, 0], [0, 0, 2], [0, 1, 0]]       # position -> index of the source object it shares
+    n = 0
+    for tool in ("zip", "map", "zip_longest", "chain", "compress", "merge"):
+        nsrc, plist, fns, style = grid[tool]
+        for params in plist:
+            for layout in (layouts if tool != "compress" else [[0, 0]]):
+                for ln in range(0, 7 if tier == "quick" else 9):
+                    n += 1
+                    keyseqs = [[(j + i) % 2 + 1 for j in range(ln if i == 0 else 2)] for i in range(len(layout))]
+                    if style == "sorted":
+                        keyseqs = [sorted(k) for k in keyseqs]
+                    kset = [k for k in kinds if k not in ("list", "seq")]   # re-iterables give every position a fresh iterator
+                    cons_list = (cons_for or cons_exhaust)(tool, ln + 2)
+                    for cons in cons_list:
+                        case = build_case(tool, params, fns, style, keyseqs, _rot(kset, n, len(layout)), cons, _rot(FLAV, n, len(fns)))
+                        for pos, ref in enumerate(layout):
+                            if ref != pos:
+                                case["srcs"][pos] = {"kind": case["srcs"][ref]["kind"], "script": [], "same_as": ref}
+                        case["family"] = "shared"
+                        yield case
+
+
 # ---------------------------------------------------------------------------------------------
 # judges
 
